@@ -61,7 +61,7 @@ Theorem C05_ktuplets_model_kernel : forall l1 maxKB idx start stop,
   16 <= maxKB -> maxKB <= 8192 -> (1 <= idx <= 5)%nat -> 7 <= start -> start <= stop -> stop <= MAX64 ->
   let low := start - byteRemainder start in
   let size := N.to_nat ((stop - low) / 30 + 1) in
-  segment_tuplets (nth idx kBitmasks []) low (bytes_of_set (erat_model l1 maxKB start stop) low size)
+  segment_tuplets (nth idx kBitmasks []) low (bytes_of_set (erat_self l1 maxKB start stop) low size)
   = tuplets_of_set idx (primes_between start stop).
 Proof. exact ktuplets_model. Qed.
 Print Assumptions C05_ktuplets_model_kernel.
